@@ -14,10 +14,26 @@ MC = "model_checking"
 
 # id -> (engine, category, technique, text, note, design_ref)
 CHECKS = {
+    "C01": ("relang", TV, "SMT regular-language inclusion (z3 seq/re theory): compiled pattern vs. reference semantics built from the AST, per program, for all well-formed paths",
+            "For every generated program the regex text the real code compiled is translated (regex-syntax HIR -> RegLan) and z3 decides WF ∩ (L ∖ May) = ∅ and WF ∩ (Must ∖ L) = ∅ against a documentation-derived reference (Must ⊆ May sandwich); witnesses are replayed through the real is_match.",
+            "Trusted: regex-syntax HIR = what regex-automata matches; HIR->SMT translator (self-tested each run); relang/ref.py as the reading of the README; z3. Programs enumerated from a bounded grammar; programs the documentation gives no meaning to are counted as unspecified.",
+            "5 C01"),
+    "C09": ("relang", TV, "SMT regular-language emptiness: descendants of matched canonical paths minus the language, per program reporting Always",
+            "For every glob / `any` combinator that reports is_exhaustive Always, z3 decides that no canonical path beneath a matched canonical path is unmatched (one query over all paths and all descendants); witnesses replayed through the real is_match.",
+            "Trusted base as C01 without the reference semantics (the obligation only uses the program's own language). One-directional: Sometimes/Never are not constrained.",
+            "5 C09"),
+    "C10": ("relang", TV, "SMT regular-language inclusion: matched canonical paths vs. the language of paths with lo..hi components, per program",
+            "For every glob / combinator z3 decides that every canonical path of the pattern's rootedness it matches has a component count inside the reported depth variance; witnesses replayed through the real is_match. (The range algebra lemma of engine B is added when built.)",
+            "Trusted base as C09. Root not counted as a component; empty path excluded (no components).",
+            "5 C10"),
     "C11": ("relang", TV, "SMT regular-language emptiness (z3 seq/re theory) on the pattern compiled by the real code, per program, for all paths",
             "For every program that reports invariant text t (globs from a bounded grammar + corpus, and `any` combinators of them) z3 decides that L(program) minus {t} is empty over all strings of any length, and that t is in L(program); sat witnesses are replayed through the real is_match.",
             "Trusted: regex-syntax 0.8.11 HIR of the pattern text = what regex-automata matches; the ~100-line HIR->SMT translator (self-tested each run on the repository's own match vectors); z3. Programs are enumerated (bounded grammar), paths are not.",
             "5 C11"),
+    "C12": ("relang", TV, "SMT regular-language emptiness: language ∩ unrooted strings, per program reporting has_root Always; per-program comparison for the two concrete clauses",
+            "For every glob / combinator reporting has_root Always z3 decides that it matches no string that does not begin with '/'; that globs never report Sometimes and that has_semantic_literals covers every component spelled `.`/`..` in the AST is compared per program.",
+            "Trusted base as C09; the semantic-literal truth is computed from the generator's AST (conservatively: only components certainly delimited).",
+            "5 C12"),
 }
 
 NOT_APPLICABLE = {
